@@ -45,7 +45,7 @@ class QuaMapMeta:
     banner_file: str = ""
     genre: str = ""
     bpm_does_not_affect_scroll_velocity: bool = True
-    initial_scroll_velocity: float = ""
+    initial_scroll_velocity: float = 1.0
     has_scratch_key: bool = True
     map_id: int = -1
     map_set_id: int = -1
